@@ -381,6 +381,20 @@ fn run_emit(path: &Path) -> EmitResult {
     res
 }
 
+/// Build `path` with the given IR directory (which may hold the items of an earlier build); the font bytes or the error
+fn build_into(path: &Path, ir_dir: Option<PathBuf>) -> Result<Vec<u8>, String> {
+    match std::panic::catch_unwind(AssertUnwindSafe(|| {
+        let input = fontc::Input::new(path).map_err(|e| e.to_string())?;
+        let source = input.create_source().map_err(|e| e.to_string())?;
+        let mut options = fontc::Options::default();
+        options.ir_dir = ir_dir;
+        fontc::generate_font(source, options).map_err(|e| e.to_string())
+    })) {
+        Ok(r) => r,
+        Err(p) => Err(format!("panic: {}", panic_text(p))),
+    }
+}
+
 fn emit_corpus() -> Vec<PathBuf> {
     let td = vh::repo_root().join("resources/testdata");
     ["wght_var.designspace", "glyphs3/WghtVar.glyphs", "glyphs3/WghtVar_Anchors.glyphs", "glyphs2/WghtVar_ImplicitAxes.glyphs",
@@ -514,6 +528,23 @@ fn main() {
         let tmp = vh::srcgen::scratch_dir("c14src");
         let p = d.write(&tmp.path().join("src"));
         emit_sources.push((format!("generated-{k}"), p, Some(tmp)));
+        // every third source is followed by a poorer version of itself (no kerning, groups, features, anchors): built into
+        // the directory its richer twin left behind, it must not pick up the twin's optional items
+        if k % 3 == 0 {
+            let mut poor = d.clone();
+            poor.family = format!("Emit{k}p");
+            for m in poor.masters.iter_mut() {
+                m.kerning.clear();
+                m.groups.clear();
+                m.features = None;
+                for g in m.glyphs.iter_mut() {
+                    g.anchors.clear();
+                }
+            }
+            let tmp = vh::srcgen::scratch_dir("c14src");
+            let p = poor.write(&tmp.path().join("src"));
+            emit_sources.push((format!("generated-{k}-poor"), p, Some(tmp)));
+        }
     }
     let (mut emit_runs, mut emit_fonts, mut items_compared, mut emit_errors) = (0usize, 0usize, 0usize, BTreeMap::<String, usize>::new());
     for (label, path, _keep) in &emit_sources {
@@ -555,6 +586,36 @@ fn main() {
                     "items_compared": r.compared, "glyphs": r.glyphs, "font": r.font_emit.is_ok()}));
         id += 1;
     }
+    // ---- a build directory that has been used before: source A is built into D, then source B into the same D;
+    //      B's font must still be the one B gives without an IR directory (stale items of A must not leak into it)
+    let mut reused = 0usize;
+    let order: Vec<usize> = (0..emit_sources.len()).collect();
+    for w in order.windows(2) {
+        let (a, b) = (&emit_sources[w[0]], &emit_sources[w[1]]);
+        let tmp = vh::srcgen::scratch_dir("c14reuse");
+        let d = tmp.path().join("build");
+        let _ = build_into(&a.1, Some(d.clone()));
+        let plain = build_into(&b.1, None);
+        let again = build_into(&b.1, Some(d.clone()));
+        reused += 1;
+        match (&plain, &again) {
+            (Ok(x), Ok(y)) if x != y => emit_violation(
+                "emit-ir-reused-directory-changes-font",
+                format!("{} built into the IR directory left by {} differs from {} built without an IR directory ({} vs {} bytes)", b.0, a.0, b.0, y.len(), x.len()),
+                json!({"first": a.0, "first_path": a.1, "second": b.0, "second_path": b.1}),
+            ),
+            (Ok(_), Err(e)) | (Err(e), Ok(_)) => emit_violation(
+                "emit-ir-reused-directory-changes-outcome",
+                format!("{} built into the IR directory left by {} ends differently from the build without an IR directory: {}", b.0, a.0, e.chars().take(200).collect::<String>()),
+                json!({"first": a.0, "first_path": a.1, "second": b.0, "second_path": b.1}),
+            ),
+            _ => {}
+        }
+        emit(json!({"type": "case", "id": id, "kind": "emit-ir-reused-dir", "nontrivial": true, "sig": format!("r:{}>{}", a.0, b.0), "first": a.0, "second": b.0,
+                    "font": again.is_ok()}));
+        id += 1;
+    }
     emit_stat(json!({"names_checked_for_collisions": names, "distinct_folded_outputs": seen.len(), "kern_location_pairs": pairs, "extra_evaluations": names - n,
+                     "emit_ir_reused_directory_pairs": reused,
                      "emit_ir_sources": emit_runs, "emit_ir_fonts_compared": emit_fonts, "emit_ir_items_read_back": items_compared, "emit_ir_build_errors": emit_errors}));
 }
